@@ -307,7 +307,7 @@ def run(res, tier):
     rng = np.random.default_rng(common.seed())
     proved = driver.proof_step(res, PID, allow_axioms=common.REALS_AXIOMS + ('Classical_Prop.classic',))
     known.report_known(res, PID)
-    n_rbf, n_cen, n_grid, n_seed, n_cpl = (160, 160, 60, 60, 60) if tier == 'quick' else (2400, 2000, 600, 600, 300)
+    n_rbf, n_cen, n_grid, n_seed, n_cpl = (160, 160, 60, 60, 150) if tier == "quick" else (2400, 2000, 600, 600, 400)
     bad, dist, kn = [], {}, {}
     evals = 0
     params = gen_rbf_params(rng, n_rbf) + gen_center_params(rng, n_cen)
